@@ -21,6 +21,7 @@ RULE = ("block level: (l_a, l_b) in 0..4 x 0..4 enumerated; every order triple w
         "of the same order slice (min 1e-9); distinct by input hash; hp stream: 8 (quick) / 80 (thorough) shell pairs "
         "l<=2 / l<=4, K,M<=2, 1-4 order triples up to 4, origins on/off centre and far, replayed at 260 bits against "
         "commands 8 and 5, tolerance 1e-18 x sum|primitive terms|")
+RULE += " HISTORY stream (the returned value depends only on the arguments): basis-level shells carry the atom index (icenter; shells sharing a centre share it); every 2nd generated basis (quick; every 4th thorough; with a transform only bases of 1-2 shells) and every 5th same-centre pair is a GEOMETRY SCAN evaluated in one process: the same shells (exponents, coefficients, types, icenter) with the atoms displaced rigidly by k/16 bohr (one atom, or every atom by its own vector) at 1-2 further geometries, then the first geometry again; every call is compared with the exact model at its own geometry with the same tolerance (detail kind \"history\", the replay case contains the geometries; shrinking and replay evaluate every candidate sequence in a fresh process)"
 ASSUMPTIONS = ["'double-precision accuracy' is read as 1e-9 relative to the largest element of the order slice; rounding "
                "of the NumPy pipeline is not modelled"]
 ALL_ORDERS = list(itertools.product(range(5), repeat=3))
@@ -193,4 +194,4 @@ def gen_cases(tier, seed):
 
 def run(rep, tier, seed, model, replay):
     cases = [replay["case"]] if replay is not None else gen_cases(tier, seed)
-    run_cases(rep, cases, eval_case, shrinkfn=twoindex.shrink_case)
+    run_cases(rep, cases, eval_case, shrinkfn=twoindex.shrink_case, isolate=True)
